@@ -688,6 +688,7 @@ func vSchedule()                 {}
 var vBaseGoroutines int
 func vThreads()                  { vBaseGoroutines = runtime.NumGoroutine() }
 func vSchedulePolicy(k int)      { vThreads() }
+func vScheduleExplore(k int, preempt bool) { vThreads() }
 func vYield()                    { time.Sleep(60 * time.Millisecond) }
 func vLiveThreads() int {
 	for i := 0; i < 100 && runtime.NumGoroutine() > vBaseGoroutines; i++ {
